@@ -160,6 +160,12 @@ func runChainCases(c *ev.Ctx, spec string, cases []chainCase) {
 				mu.Lock()
 				n++
 				mu.Unlock()
+				if ref.Err == "" && sub.AppPanic != "" {
+					// the real application panicked while executing a block of the subject history (a node would halt or,
+					// where the panic is recovered per transaction, diverge): a verdict about the code, not about the harness
+					c.Report(spec+"/block-execution-panics", "block execution panics: "+sub.AppPanic+"  [case "+cs.Name+": "+fmt.Sprint(blocksText(cs.Subject))+"]", caseReplay{spec, cs.Name, cs.Env, cs.Ref, cs.Subject, blocksText(cs.Subject)})
+					continue
+				}
 				if ref.Err != "" || sub.Err != "" {
 					c.HarnessError(fmt.Sprintf("%s case %s: %s %s", spec, cs.Name, ref.Err, sub.Err))
 					continue
